@@ -203,6 +203,62 @@ def main():
         for e in errors[:5]:
             mismatch("thread", e, {})
 
+        # the HuggingFace pre-tokenizer binding shares one object between threads; the `tokenizers` package is not
+        # available offline, so the two names the binding needs are provided by a stand-in (custom(obj) returns obj,
+        # whose __call__(index, normalized_string) HuggingFace would invoke)
+        try:
+            stub = os.path.join(sdir, "_stub", "tokenizers")
+            os.makedirs(stub, exist_ok=True)
+            with open(os.path.join(stub, "__init__.py"), "w") as f:
+                f.write("class NormalizedString:\n    def __init__(self, s):\n        self.s = s\n    def __str__(self):\n        return self.s\n"
+                        "    def slice(self, sl):\n        return NormalizedString(self.s[sl])\n")
+            with open(os.path.join(stub, "pre_tokenizers.py"), "w") as f:
+                f.write("class PreTokenizer:\n    @staticmethod\n    def custom(obj):\n        return obj\n")
+            sys.path.insert(0, os.path.join(sdir, "_stub"))
+            from tokenizers import NormalizedString
+            sys.setswitchinterval(1e-5)
+            ptexts = [t for t in texts if t][:12] or ["あ"]
+            ref = d.create(mode=SplitMode.C)
+            pexp = {t: [m.raw_surface() for m in ref.tokenize(t)] for t in ptexts}
+            perr = []
+
+            def handler(index, sentence, morphemes):
+                text = str(sentence)
+                n = 0
+                for k in range(200):
+                    n += k % 7
+                got = [m.raw_surface() for m in morphemes]
+                if got != pexp[text]:
+                    perr.append("pre-tokenizer handler for %r was handed %r, expected %r" % (text, got[:6], pexp[text][:6]))
+                return [NormalizedString(s) for s in got]
+
+            pretok = d.pre_tokenizer(SplitMode.C, handler=handler)
+            out["pretokenizer_calls"] = 0
+
+            def pwork(tid):
+                for i in range(400):
+                    t = ptexts[(tid * 3 + i) % len(ptexts)]
+                    try:
+                        pretok(i, NormalizedString(t))
+                        out["pretokenizer_calls"] += 1
+                    except (KeyboardInterrupt, SystemExit):
+                        raise
+                    except BaseException as ex:  # noqa
+                        perr.append("pre-tokenizer call for %r raised %r" % (t, ex))
+                        return
+
+            pth = [threading.Thread(target=pwork, args=(i,)) for i in range(4)]
+            for t in pth:
+                t.start()
+            for t in pth:
+                t.join()
+            for e in perr[:3]:
+                mismatch("thread_pretokenizer", e, {})
+        except (KeyboardInterrupt, SystemExit):
+            raise
+        except BaseException as ex:  # noqa
+            out["pretokenizer_setup_error"] = repr(ex)
+
     print(json.dumps(out, ensure_ascii=False))
 
 
